@@ -28,7 +28,7 @@ func recPaths(ti *mon.TraceIndex, rec string) []string {
 func c08(args []string) {
 	c := chk.New("C08", "exploration", args)
 	c.Build(false)
-	c.Rule("[pile-up] 60-110 inputs with a 1.5 s task at position five and enough slots for all (every third run with the process's Spawn field set to false): more than 50 finished tasks wait behind the head and must leave in arrival order; [repeated input sets] the same input reaches a process a second time while its first task has executed but still waits behind a slow head: it leaves the port where it was received; chains and trees of 1-3 processing stages with 3-40 items; recorder components in front of every in-port (single sender, so their log is the arrival order) and behind every out-port; task durations assigned so that completion order is the reverse or a random permutation of arrival order; slots in {2,4,16}, SCIPIPE_BUFSIZE in {1,3,128} (and 0 = unbuffered with a two-out-port process read by two recorders), a parameter source fanned out to the parameter ports of a slow and a quick process (values > buffer), slow downstream recorders (buffers fill up), some middle tasks skipped because their outputs pre-exist, fan-in of two upstreams through a recording merge point; bundled components between recorders (FileCombinator: first occurrences on each out-port in arrival order; IPSelectorSync: selected items in arrival order; MapToTags: pass-through, also with a map function that tags only every third file; sub-stream members in a joined placeholder, also with a file arriving twice) with file names whose arrival order is not lexicographic; oracle: sequence behind each out-port == image (through the reference's task -> out-path map) of the sequence recorded in front of the in-port; projection of a merged sequence onto each upstream == that upstream's own output sequence; every item passing a recorder behind a non-streaming out-port of a command / Go-function process must be a file at that moment (the recorder stats it on reception). distinct_nontrivial = runs in which the completion order of some process really differed from its arrival order (measured from the commands' end stamps), distinct by (shape, config, permutation)")
+	c.Rule("[streaming beside an ordinary port] a process with a streaming and an ordinary out-port whose first task is the slowest: the ordinary port still emits in input order; [pile-up] 60-110 inputs with a 1.5 s task at position five and enough slots for all (every third run with the process's Spawn field set to false): more than 50 finished tasks wait behind the head and must leave in arrival order; [repeated input sets] the same input reaches a process a second time while its first task has executed but still waits behind a slow head: it leaves the port where it was received; chains and trees of 1-3 processing stages with 3-40 items; recorder components in front of every in-port (single sender, so their log is the arrival order) and behind every out-port; task durations assigned so that completion order is the reverse or a random permutation of arrival order; slots in {2,4,16}, SCIPIPE_BUFSIZE in {1,3,128} (and 0 = unbuffered with a two-out-port process read by two recorders), a parameter source fanned out to the parameter ports of a slow and a quick process (values > buffer), slow downstream recorders (buffers fill up), some middle tasks skipped because their outputs pre-exist, fan-in of two upstreams through a recording merge point; bundled components between recorders (FileCombinator: first occurrences on each out-port in arrival order; IPSelectorSync: selected items in arrival order; MapToTags: pass-through, also with a map function that tags only every third file; sub-stream members in a joined placeholder, also with a file arriving twice) with file names whose arrival order is not lexicographic; oracle: sequence behind each out-port == image (through the reference's task -> out-path map) of the sequence recorded in front of the in-port; projection of a merged sequence onto each upstream == that upstream's own output sequence; every item passing a recorder behind a non-streaming out-port of a command / Go-function process must be a file at that moment (the recorder stats it on reception). distinct_nontrivial = runs in which the completion order of some process really differed from its arrival order (measured from the commands' end stamps), distinct by (shape, config, permutation)")
 	c.Assume("recorders are harness components written against the public BaseProcess/InPort/OutPort API")
 	rng := c.Rand("c08")
 	type job struct {
@@ -531,6 +531,7 @@ func c08(args []string) {
 	})
 	c08edgeConfigs(c)
 	c08duplicates(c)
+	c08mixedStream(c)
 	c08pileup(c)
 	c.Finish()
 }
@@ -764,5 +765,50 @@ func c08pileup(c *chk.Ctx) {
 		}
 		c.Count("pileup_runs", 1)
 		c.Nontrivial(fmt.Sprintf("pileup|%d|%v", n, cfg))
+	})
+}
+
+// c08mixedStream: a process with a streaming out-port and an ordinary one; its first task takes longest. The items on
+// the ordinary port leave in the order of the inputs, like those of any other process.
+func c08mixedStream(c *chk.Ctx) {
+	run.Parallel(c.Pick(2, 6), func(i int) {
+		root := c.CaseDir()
+		defer c.Drop(root)
+		n := 3 + i%3
+		s := streamSpec("mixedorder", n, 2*n+2, false)
+		prod := s.Proc("PROD")
+		prod.Cmd = spec.BuildCmd("PROD", []spec.PortDecl{{Name: "in"}}, []spec.PortDecl{{Name: "out", Stream: true}, {Name: "side"}}, nil, nil, nil)
+		s.Procs = append(s.Procs, &spec.Proc{Name: "ROUT", Kind: spec.KRecorder})
+		s.Conns = append(s.Conns, &spec.Conn{From: "PROD.side", To: "ROUT.in"})
+		bh := vproto.Behaviours{}
+		for k := 0; k < n; k++ {
+			bh[vproto.TaskKey("PROD", []vproto.KV{{K: "in", V: fmt.Sprintf("s%d.txt", k)}}, nil, nil)] = map[string]string{"sleep": fmt.Sprint(120 * (n - k))}
+		}
+		cfg := Cfg{Buf: []int{128, 1}[i%2], Procs: 4, NoHooks: i%2 == 1}
+		desc := map[string]interface{}{"spec": s, "cfg": cfg, "behav": bh}
+		res := execSpec(c, root, s, cfg, bh, false, 0)
+		if res.Hang != "" {
+			c.Inconclusive(res.Hang)
+			return
+		}
+		if res.Exit != 0 || !res.Returned {
+			c.Violation("mixed-stream-run-failed", fmt.Sprintf("exit %d: %s", res.Exit, tail(res.Output(), 400)), desc)
+			return
+		}
+		got := recPaths(mon.Index(res.Trace), "ROUT")
+		var want []string
+		for k := 0; k < n; k++ {
+			want = append(want, fmt.Sprintf("s%d.txt", k))
+		}
+		ok := len(got) == n
+		for k := 0; ok && k < n; k++ {
+			ok = strings.HasPrefix(filepath.Base(got[k]), want[k])
+		}
+		if !ok {
+			c.Violation("order-not-preserved:ordinary-port-beside-streaming-port", fmt.Sprintf("inputs arrived as %v (first task slowest); the ordinary out-port emitted %v", want, got), desc)
+			return
+		}
+		c.Count("mixed_stream_runs", 1)
+		c.Nontrivial(fmt.Sprintf("mixedstream|%d|%v", n, cfg.Buf))
 	})
 }
